@@ -207,11 +207,37 @@ impl<'a> P<'a> {
                     if self.rest().starts_with("]]>") {
                         return Err("']]>' in character data".into());
                     }
-                    text.push(c);
                     self.i += c.len_utf8();
+                    // XML 1.1 section 2.11: literal line ends are normalised to a line feed
+                    match c {
+                        '\r' => {
+                            if matches!(self.peek(), Some('\n' | '\u{85}')) {
+                                self.i += self.peek().unwrap().len_utf8();
+                            }
+                            text.push('\n');
+                        }
+                        '\u{85}' | '\u{2028}' => text.push('\n'),
+                        _ => text.push(c),
+                    }
                 }
             }
         }
+    }
+}
+
+/// Does the JSON value hold an object key that is not an XML Name?
+pub fn has_key_that_is_no_name(v: &serde_json::Value) -> bool {
+    use serde_json::Value;
+    match v {
+        Value::Object(o) => {
+            o.iter().any(|(k, vv)| {
+                let mut cs = k.chars();
+                let ok = cs.next().is_some_and(is_name_start) && cs.all(is_name_char);
+                !ok || has_key_that_is_no_name(vv)
+            })
+        }
+        Value::Array(a) => a.iter().any(has_key_that_is_no_name),
+        _ => false,
     }
 }
 
